@@ -23,7 +23,7 @@ CONSTANTS MaxLen,     \* maximal length of the text
           Prefix,     \* forced first classes (<<>> for whole-text mode)
           Alphabet    \* classes allowed after the prefix
 
-Letters   == {"L_e", "L_u", "L_bf", "L_hex", "L_nrt", "L_other"}
+Letters   == {"L_e", "L_u", "L_bf", "L_hex", "L_nrt", "L_x", "L_other"}   \* L_x: x X (not hex; "0x1f" is what int(s, 16) also accepts)
 Digits    == {"D0", "D19"}
 HexCls    == Digits \cup {"L_e", "L_bf", "L_hex"}
 NameStart == Letters
